@@ -321,75 +321,54 @@ func Supervise(self string, chk *Check, tier string) int {
 		}
 		wg2.Wait()
 	}
-	for ri, r := range results {
-		if r.out == nil && r.partial != nil {
-			for k, v := range r.partial.Counters {
-				if strings.HasPrefix(k, "max:") {
-					if v > merged[k] {
-						merged[k] = v
-					}
-				} else {
-					merged[k] += v
+	mergeOut := func(o *workerOut) {
+		for k, v := range o.Counters {
+			if strings.HasPrefix(k, "max:") {
+				maxKeys[k] = true
+				if v > merged[k] {
+					merged[k] = v
 				}
-			}
-			for _, v := range r.partial.Violations {
-				addViol(v)
-			}
-			for set, hs := range r.partial.Distinct {
-				m := distinct[set]
-				if m == nil {
-					m = map[uint64]struct{}{}
-					distinct[set] = m
-				}
-				for _, h := range hs {
-					m[h] = struct{}{}
-				}
+			} else {
+				merged[k] += v
 			}
 		}
+		for _, v := range o.Violations {
+			addViol(v)
+		}
+		if len(samples) < 4 {
+			samples = append(samples, o.Samples...)
+		}
+		for _, s := range o.Notes {
+			dup := false
+			for _, t := range notes {
+				if t == s {
+					dup = true
+				}
+			}
+			if !dup {
+				notes = append(notes, s)
+			}
+		}
+		for set, hs := range o.Distinct {
+			m := distinct[set]
+			if m == nil {
+				m = map[uint64]struct{}{}
+				distinct[set] = m
+			}
+			for _, h := range hs {
+				m[h] = struct{}{}
+			}
+		}
+		if o.Capped {
+			capped = true
+		}
+		if o.Cases > cases {
+			cases = o.Cases
+		}
+	}
+	for ri, r := range results {
 		if r.out != nil {
-			for k, v := range r.out.Counters {
-				if strings.HasPrefix(k, "max:") {
-					maxKeys[k] = true
-					if v > merged[k] {
-						merged[k] = v
-					}
-				} else {
-					merged[k] += v
-				}
-			}
-			for _, v := range r.out.Violations {
-				addViol(v)
-			}
-			if len(samples) < 4 {
-				samples = append(samples, r.out.Samples...)
-			}
-			for _, s := range r.out.Notes {
-				dup := false
-				for _, t := range notes {
-					if t == s {
-						dup = true
-					}
-				}
-				if !dup {
-					notes = append(notes, s)
-				}
-			}
-			for set, hs := range r.out.Distinct {
-				m := distinct[set]
-				if m == nil {
-					m = map[uint64]struct{}{}
-					distinct[set] = m
-				}
-				for _, h := range hs {
-					m[h] = struct{}{}
-				}
-			}
-			if r.out.Capped {
-				capped = true
-			}
-			if r.out.Cases > cases {
-				cases = r.out.Cases
-			}
+			mergeOut(r.out)
 			continue
 		}
 		// crash or stall: pin-point by re-running the shard in trace mode
@@ -431,6 +410,24 @@ func Supervise(self string, chk *Check, tier string) int {
 					addViol(v)
 				}
 			}
+		}
+		if confirmed && r.partial != nil {
+			mergeOut(r.partial) // what the worker had found before it died
+		}
+		if !confirmed {
+			// the case completes when run alone: the worker was starved or killed for a reason outside the check
+			// (machine load, watchdog). Not a verdict: run the shard again with a generous stall limit and use that.
+			fmt.Fprintf(os.Stderr, "[supervisor] worker %d: case %d completes alone; re-running the shard\n", r.shard, caseIdx)
+			again := spawn(selfFor(selfOf, results, r, self), chk, tier, seed, r.shard, n, filepath.Join(tmp, fmt.Sprintf("again%d.json", ri)), 5*stall)
+			if again.out != nil {
+				results[ri] = again
+				mergeOut(again.out)
+				continue
+			}
+			fmt.Fprintf(os.Stderr, "[supervisor] worker %d did not complete on the second attempt either (%s); infrastructure problem, not a verdict\n%s\n", r.shard, again.exitInfo, lastLines(again.stderr, 8))
+			infra++
+			capped = true
+			continue
 		}
 		lastInput := ""
 		for _, f := range []string{filepath.Join(tmp, fmt.Sprintf("o%d.json.lastinput", ri)), filepath.Join(tmp, fmt.Sprintf("t%d.json.lastinput", r.shard))} {
